@@ -593,7 +593,10 @@ class _Linalg:
         m = _arr(m)
         if m.shape == (2, 2):
             return m[0, 0] * m[1, 1] - m[0, 1] * m[1, 0]
-        return _exact_det(m)
+        if all(isinstance(norm(x), _EXACT) for x in m.reshape(-1)):
+            return _exact_det(m)
+        idx = tuple(range(m.shape[0]))
+        return _minor_det(m, idx, idx, {})
 
     @staticmethod
     def matrix_rank(m):
